@@ -1,0 +1,86 @@
+//go:build verif
+
+package diagnostic
+
+// Machine-checked contracts for the synchronised diagnostic list (see /verif/DESIGN.md, C11).
+// This file contains no declarations: it only carries specification comments
+// that the elkvc verification-condition generator reads.
+
+/*@
+// Method bodies are checked by up to MethodCheckConcurrencyLimit goroutines that all report
+// into ONE SyncDiagnosticList, and ask it whether a failure has been recorded yet
+// (Checker.shouldCompile).  Every access to the list behind that type's methods therefore has to
+// happen with the list's mutex held: a read of the slice header while another goroutine
+// appends is a data race.
+guarded SyncDiagnosticList.DiagnosticList by Mutex for C11
+
+spec fn dlLock(e *SyncDiagnosticList) int = ghost(lockstate, &e.Mutex)
+
+// what other threads may do between two critical sections: anything to the list (Append, Join,
+// Clear); nothing is promised about its content, only the discipline is checked
+monitor SyncDiagnosticList.Mutex(e)
+  requires any: true
+
+func NewSyncDiagnosticList
+  unshared
+
+// the sequential list operations the critical sections call
+func (DiagnosticList).IsFailure
+  trusted
+  pure
+
+func (DiagnosticList).Error
+  trusted
+  pure
+
+func (*SyncDiagnosticList).Append
+  props C11
+  requires e != nil && dlLock(e) == 0
+  ensures balance: dlLock(e) == 0
+
+func (*SyncDiagnosticList).JoinErrList
+  props C11
+  requires e != nil && dlLock(e) == 0
+  ensures balance: dlLock(e) == 0
+
+// joining a list into itself would lock the same mutex twice
+func (*SyncDiagnosticList).Join
+  props C11
+  requires e != nil && other != nil && e != other && dlLock(e) == 0 && dlLock(other) == 0
+  ensures balance: dlLock(e) == 0 && dlLock(other) == 0
+
+func (*SyncDiagnosticList).Clear
+  props C11
+  requires e != nil && dlLock(e) == 0
+  ensures balance: dlLock(e) == 0
+
+func (*SyncDiagnosticList).IsFailure
+  props C11
+  requires e != nil && dlLock(e) == 0
+  ensures balance: dlLock(e) == 0
+
+func (*SyncDiagnosticList).Error
+  props C11
+  requires e != nil && dlLock(e) == 0
+  ensures balance: dlLock(e) == 0
+
+func (*SyncDiagnosticList).Add
+  props C11
+  requires e != nil && dlLock(e) == 0
+  ensures balance: dlLock(e) == 0
+
+func (*SyncDiagnosticList).AddFailure
+  props C11
+  requires e != nil && dlLock(e) == 0
+  ensures balance: dlLock(e) == 0
+
+func (*SyncDiagnosticList).AddWarning
+  props C11
+  requires e != nil && dlLock(e) == 0
+  ensures balance: dlLock(e) == 0
+
+func (*SyncDiagnosticList).AddInfo
+  props C11
+  requires e != nil && dlLock(e) == 0
+  ensures balance: dlLock(e) == 0
+@*/
